@@ -234,7 +234,7 @@ func checkOutbound(e *endpoint, ev knx.GroupEvent) []byte {
 	if e.kind == "router" {
 		svc, wantCode = spec.SvcRoutingInd, spec.McLDataInd
 	}
-	for _, x := range e.s.Log()[from:] {
+	for _, x := range e.s.LogFrom(from) {
 		if x.Kind == memsock.Tx && x.P.Service == svc {
 			frames = append(frames, x)
 		}
